@@ -141,7 +141,7 @@ _OPS = {"OP_INSERT": "insert(key, v) with symbolic value v (weight v&3 in 0..3, 
 _KEYN = {"0": "16 (resident)", "1": "17 (resident, same 64-bit hash as 16)", "2": "32 (absent)"}
 QUICK_RAW = {
     # C05 / C13 core
-    "raw_fifo_c2_ins_k2_w1", "raw_fifo_c2_ins_k2_w2", "raw_fifo_c2_ins_k2_w3", "raw_fifo_c2_ins_k0_w2", "raw_fifo_c2_ins_k2_w1r", "raw_fifo_c3_ins_k2_w1", "raw_fifo_c3_ins_k0_w3",
+    "raw_fifo_c2_ins_k2_w1", "raw_fifo_c2_ins_k2_w2", "raw_fifo_c2_ins_k2_w3", "raw_fifo_c2_ins_k0_w2", "raw_fifo_c2_ins_k2_w1r", "raw_fifo_c3_ins_k2_w1", "raw_fifo_c3_ins_k0_w3", "raw_fifo_c4_ins_k0_w1", "raw_fifo_c4_ins_k1_w3",
     "raw_fifo_c2_insdisk_k0_w2", "raw_fifo_c2_insdisk_k2_w1", "raw_fifo_c2_remove_k0", "raw_fifo_c2_clear", "raw_fifo_c2_evictall", "raw_lru_c2_ins_k2_w2", "raw_sieve_c2_ins_k2_w1",
     "raw_lru_c2_clear",
     # C18
